@@ -59,6 +59,12 @@ def design_level(rep, tier):
                      "jmp (ind) for every vector low byte incl. the $xxFF page wrap, decimal adc: silent in Step, binary in StepM(mirror)")
     workers = 4 if tier == "quick" else 5
     big = dict(workers=workers, timeout=3400, xmx="8g")
+    # the five model-checking runs share nothing: they run next to each other
+    pool = concurrent.futures.ThreadPoolExecutor(max_workers=4)
+    fb = pool.submit(lambda: V.tlc(MC, cfg=cfg("idealB_" + tier), tag="C18-idealB", **big))
+    fl = pool.submit(lambda: V.tlc(MC, cfg=cfg("long_" + tier), tag="C18-long", **big))
+    ft = pool.submit(lambda: V.tlc(MC, cfg=cfg("idealT_" + tier), tag="C18-idealT", **big))
+    fc = pool.submit(lambda: V.tlc(MC, cfg=cfg("idealC_" + tier), tag="C18-idealC", **big))
     ri = V.tlc(MC, cfg=cfg("ideal_" + tier), tag="C18-ideal", **big)
     if ri.invariant_violated:
         rep.violations.append({"why": "design level: the ideal reading of TestRunner violates an invariant", "replay": {"tlc_output": V.tail(ri.out, 80)}, "id": "MC_TestRunner_ideal"})
@@ -70,10 +76,10 @@ def design_level(rep, tier):
                      % (tier, ri.distinct, ri.depth))
     cases = [D.from_tlc_case(l) for l in ri.prints("CASE")]
     # round 4: alphabet B (pha/pla/php/plp, cmp/sec, page-wrapped jmp (ind), rti) and alphabet A with fuel for 256-iteration loops
-    rb = V.tlc(MC, cfg=cfg("idealB_" + tier), tag="C18-idealB", **big)
-    rl = V.tlc(MC, cfg=cfg("long_" + tier), tag="C18-long", **big)
+    rb = fb.result()
+    rl = fl.result()
     # round 5: alphabet B with the top-of-memory atoms (sta $ffff, ram16($fffe), ram($ffff), ram16($ffff))
-    rt = V.tlc(MC, cfg=cfg("idealT_" + tier), tag="C18-idealT", **big)
+    rt = ft.result()
     for nm, rr in (("alphabet B", rb), ("long fuel", rl), ("alphabet B + top of memory", rt)):
         if rr.invariant_violated:
             rep.violations.append({"why": "design level: TestRunner (%s) violates an invariant" % nm, "replay": {"tlc_output": V.tail(rr.out, 80)}, "id": "MC_TestRunner " + nm})
@@ -89,7 +95,7 @@ def design_level(rep, tier):
                      % (tier, rb.distinct, rb.depth, rl.distinct, rl.depth, rt.distinct))
     cases += casesB
     # round 9: alphabet C - assembly-time variables assigned again between assertions and operands
-    rc_ = V.tlc(MC, cfg=cfg("idealC_" + tier), tag="C18-idealC", **big)
+    rc_ = fc.result()
     if rc_.invariant_violated:
         rep.violations.append({"why": "design level: TestRunner (alphabet C) violates an invariant", "replay": {"tlc_output": V.tail(rc_.out, 80)}, "id": "MC_TestRunner alphabet C"})
         return []
